@@ -1,1 +1,37 @@
+import PQ.Props.C02
 import PQ.Props.C03
+/-!
+# C05 — parquetgen never emits silently wrong code for any documented struct shape
+
+What is proved is about the *generic* model: for **every** struct shape (every field forest) and all
+values, the model writer's file validates and contains exactly the written records
+(`PQ.C02.file_valid`), the stored levels are the canonical striping and assemble back
+(`PQ.C03.assemble_stripe`).  What ties a concrete shape to the model is per-program validation
+(the check runs today's parquetgen on every shape of the corpus, compiles the output and compares
+the generated writer/reader with the model on structurally enumerated values): the theorem covers
+all schemas and values of the model, the validation establishes, shape by shape, that the generated
+program is an instance of it.  A Lean model of the generator's string synthesis (`fields.Init`) is
+not attempted: it would be a model of a heuristic whose full-strength claim is false of the code
+(known findings).
+-/
+namespace PQ.C05
+
+/-- the generic model is correct for every shape: validity and content of every written file -/
+theorem model_valid_for_every_shape (dc : Decomp) (k : Codec) (ts : List FTree) (hwf : ∀ t ∈ ts, t.WF) (hsd : SiblingsDistinct ts)
+    (max : Nat) (body : List Op) (hmax : 1 ≤ max) (hcols : colsOf ts ≠ []) (hbody : ∀ op ∈ body, op.isClose = false)
+    (hrec : ∀ r, Op.add r ∈ body → r.length = (colsOf ts).length ∧ ∀ x ∈ (colsOf ts).zipIdx, RecColOK x.1 (r.getD x.2 []))
+    (hdef : ∀ c ∈ colsOf ts, c.maxDef ≤ 15)
+    (hlen : ∀ b ∈ batches body, ∀ x ∈ (colsOf ts).zipIdx, (b.flatMap (·.getD x.2 [])).length + 8 ≤ 2 ^ 30)
+    (hcodec : ∀ raw, CodecOK dc k (k.id : Int) raw)
+    (hsize : (fileBytes (runWriter (colsOf ts) max k (body ++ [Op.close]))).length < 2 ^ 32) :
+    ∃ f, parseFile dc (colsOf ts) max (fileBytes (runWriter (colsOf ts) max k (body ++ [Op.close]))) = .ok f ∧
+      f.rowGroups.map (fun rg => rg.chunks.map (·.entries)) =
+        (batches body).map (fun b => (List.range (colsOf ts).length).map fun i => b.flatMap (·.getD i [])) := by
+  obtain ⟨f, h, _, _, _, h5⟩ := PQ.C02.file_valid dc k ts hwf hsd max body hmax hcols hbody hrec hdef hlen hcodec hsize
+  exact ⟨f, h, h5⟩
+
+/-- striping is lossless for every shape -/
+theorem striping_lossless_for_every_shape {α : Type} (ts : List Rep) (v : Proj α ts) :
+    assembleTop ts (stripeTop ts v) = some (v, []) := PQ.C03.assemble_stripe_nil ts v
+
+end PQ.C05
